@@ -30,7 +30,7 @@ ASSUMPTIONS = ["the vacancy jump network and the omega1/omega2 jump lists handed
 SHARDS = {"quick": 4, "thorough": 16}
 CAP = 160
 VTOL = 1e-8
-EXCLUDE_C2AXIS = False   # stars whose stabiliser has a two-fold axis along dx and no mirror: spurious, non-equivariant vector star
+EXCLUDE_C2AXIS = True   # stars whose stabiliser has a two-fold axis along dx and no mirror: spurious, non-equivariant vector star
 
 
 @st.composite
@@ -59,7 +59,8 @@ def c2_axis_only(pg, s, stab):
     return False
 
 
-def check(case):
+def check(case, exclude=None):
+    """exclude=None: follow the module flag; False: assert the full property (replays, known-finding witnesses)"""
     from onsager import crystalStars as stars
     crys, chem, sl, jn, pg, jcl, where = pairs.prepare(case)
     classes = cs.describe(crys)
@@ -90,7 +91,7 @@ def check(case):
         dims[k], stab = pg.invariant_dim(keys[o[0]])
         c2flag[k] = c2_axis_only(pg, keys[o[0]], stab)
     # region of the known finding (excluded by construction behind the flag): count and equivariance are not asserted on such stars
-    bad = set(k for k, f in c2flag.items() if f) if EXCLUDE_C2AXIS else set()
+    bad = set(k for k, f in c2flag.items() if f) if (EXCLUDE_C2AXIS if exclude is None else exclude) else set()
     if bad:
         classes.append("c2_axis_star(excluded)")
 
@@ -168,7 +169,7 @@ def check(case):
     index = {s: a for a, s in enumerate(keys)}
 
     def proj_matrix(W):
-        return np.einsum('nax,ab,mbx->nm', F, W, F)
+        return sum(F[:, :, x] @ W @ F[:, :, x].T for x in range(d))
 
     def proj_field(b):
         return np.einsum('nax,ax->n', F, b)
@@ -350,10 +351,11 @@ def run(ctx):
             ctx.exclude("C25-c2-axis-vector-star")
         return info
     ctx.corpus(chk)
+    ctx.known(lambda case: check(case, exclude=False))
     base = catalogue_cases()
     ctx.cases([c for i, c in enumerate(base) if ctx.mine(i)], chk, label="catalogue")
     ctx.given(cases(), chk, quick=160, thorough=5000)
 
 
 def replay(case):
-    check(case)
+    check(case, exclude=False)
